@@ -523,6 +523,9 @@ Inductive kernel_id :=
   | KDefaultArgmax | KDefaultMax          (* method not overridden: default impl of the trait *)
   | KArgmaxSse2 | KArgmaxF32Avx2 | KMaxF32Avx2 | KArgmaxU8Avx2 | KMaxU8Avx2.
 
+(* arms of the dispatcher on Arm hosts (cfg(arm/aarch64): variants Generic and Neon) *)
+Inductive neon_arm := NGeneric | NNeon.
+
 Section RunKernel.
   Context {T : Type}.
   Variable le : T -> T -> bool.
@@ -589,3 +592,90 @@ Definition reconstruct_u8 (q : list (nat * nat * Z * nat)) (p1 p2 : list nat) : 
                         let reg k := if Nat.eqb k 1 then p1 else p2 in
                         storeu x off (permute2x128 O (reg a) (reg b) imm))
             q (repeat O 32).
+
+(* ---------- the dispatcher as compiled on Arm hosts ----------
+   Not compiled (and not executable) on the x86_64 host of the checks: modelled from the source.
+   dispatch.rs has no cfg(arm) arm in Maximum / Threshold, so both variants take the default
+   arm (<Generic as Maximum>::{argmax,max}, default threshold); neon.rs has no arg-max / max
+   kernel; the dispatcher's column count there is <Neon as Backend>::Lanes = 16. *)
+Section ArmHost.
+  Context {T : Type}.
+  Variable le : T -> T -> bool.
+  Definition armhost_dispatch_argmax (a : neon_arm) (m : list (list T)) : res (option (nat * nat)) :=
+    match a with NGeneric | NNeon => argmax_generic le m end.
+  Definition armhost_dispatch_max (a : neon_arm) (m : list (list T)) : res (option T) :=
+    match a with NGeneric | NNeon => max_generic le m end.
+  Definition armhost_dispatch_threshold (a : neon_arm) (m : list (list T)) (t : T) : list (nat * nat) :=
+    threshold_generic le m t.
+  (* interpretation of a generated table entry on an Arm host: only the generic kernels exist *)
+  Definition run_argmax_armhost (k : kernel_id) (m : list (list T)) : res (option (nat * nat)) :=
+    match k with KGenericArgmax | KDefaultArgmax => argmax_generic le m | _ => Panic 99 end.
+  Definition run_max_armhost (k : kernel_id) (own : res (option (nat * nat))) (m : list (list T)) : res (option T) :=
+    match k with KGenericMax => max_generic le m | KDefaultMax => max_of_argmax own m | _ => Panic 99 end.
+End ArmHost.
+
+(* ---------- the f32 vector arg-max kernels, evaluated without rebuilding the row index ----------
+   [wrap32 i] costs a conversion of the unary row index for every row, which makes the model
+   quadratic in the number of rows.  When the matrix has at most 2^32 rows (one test on the
+   row count) no index wraps and the lanes can store [i] itself; otherwise the original model
+   is used.  Proved equal to the original kernels for every input (MaxiTop.fast_kernels_eq);
+   these are the functions the driver evaluates. *)
+Section MaxiFast.
+  Context {T : Type}.
+  Variable le : T -> T -> bool.
+  Variable lt : T -> T -> bool.
+  Variable ninf : T.
+
+  Definition argmax_vstep_id (width : nat) (load : list T -> list (list T))
+             (st : @vstate T) (irow : nat * list T) : @vstate T :=
+    let '(s, p) := st in
+    let r := load (snd irow) in
+    let index := repeat (fst irow) width in
+    let c := map2 (map2 le) s r in
+    (map2 (fun sk rc => blendv sk (fst rc) (snd rc)) s (combine r c),
+     map2 (fun pk ck => blendv pk index ck) p c).
+
+  Definition rows_fit32b (m : list (list T)) : bool := (N.of_nat (length m) <=? 4294967296)%N.
+
+  Definition argmax_f32_avx2_x_fast (m : list (list T)) (row0 : list T) : list nat :=
+    if rows_fit32b m then
+      concat (snd (fold_left (argmax_vstep_id 8 load4x8) (enumerate m) (load4x8 row0, repeat (repeat 0 8) 4)))
+    else argmax_f32_avx2_x le m row0.
+
+  Definition argmax_f32_avx2_fast (max_index : N) (m : list (list T)) : res (option (nat * nat)) :=
+    if (4294967295 <? max_index)%N then Panic 20 else
+    match m with
+    | [] => Ok None
+    | row0 :: _ =>
+        let x := argmax_f32_avx2_x_fast m row0 in
+        b0 <- get m 0 0 ;;
+        b <- avx2_f32_reduce lt m 0 x (0, 0, b0) ;;
+        Ok (Some (tpos b))
+    end.
+
+  Definition sse2_block_fast (m : list (list T)) (off : nat) : list nat :=
+    if rows_fit32b m then
+      concat (snd (fold_left (argmax_vstep_id 4 (load4x4 off)) (enumerate m)
+                             (repeat (repeat ninf 4) 4, repeat (repeat 0 4) 4)))
+    else sse2_block le ninf m off.
+
+  Definition argmax_sse2_fast (C : nat) (max_index : N) (m : list (list T)) : res (option (nat * nat)) :=
+    if (4294967295 <? max_index)%N then Panic 20 else
+    match m with
+    | [] => Ok None
+    | _ =>
+        let output := flat_map (fun b => sse2_block_fast m (b * 16)) (seq 0 (C / 16)) in
+        b <- sse2_reduce le m output 0 C (0, 0, ninf) ;;
+        Ok (Some (tpos b))
+    end.
+
+  Definition pipeline_sse2_max_fast (C : nat) (max_index : N) (m : list (list T)) : res (option T) :=
+    max_of_argmax (argmax_sse2_fast C max_index m) m.
+
+  Definition dispatch_argmax_f32_fast (a : arm) (max_index : N) (m : list (list T)) : res (option (nat * nat)) :=
+    match a with
+    | AAvx2 => argmax_f32_avx2_fast max_index m
+    | ASse2 => argmax_sse2_fast 32 max_index m
+    | AGeneric => argmax_generic le m
+    end.
+End MaxiFast.
